@@ -7,6 +7,7 @@ import (
 	"go/ast"
 	"go/token"
 	"go/types"
+	"golang.org/x/tools/go/ssa"
 	"os"
 	"os/exec"
 	"path/filepath"
@@ -194,4 +195,57 @@ func normExpr(c *Ctx, info *types.Info, pkg *types.Package, n ast.Node) string {
 		buf = append(buf[:f], append([]byte(r.with), buf[t:]...)...)
 	}
 	return strings.Join(strings.Fields(string(buf)), "")
+}
+
+// bceInstr: the SSA instruction (slice, index address, index, string lookup) at the position the compiler reported.
+func (c *Ctx) bceInstr(s BCESite) ssa.Instruction {
+	var found ssa.Instruction
+	for _, f := range c.FuncSeq {
+		for _, b := range f.Blocks {
+			for _, in := range b.Instrs {
+				switch in.(type) {
+				case *ssa.Slice, *ssa.IndexAddr, *ssa.Index, *ssa.Lookup:
+				default:
+					continue
+				}
+				if !in.Pos().IsValid() {
+					continue
+				}
+				p := c.Fset.Position(in.Pos())
+				if p.Line != s.Line || p.Column != s.Col || !strings.HasSuffix(p.Filename, "/"+s.File) {
+					continue
+				}
+				if found != nil {
+					return nil // ambiguous
+				}
+				found = in
+			}
+		}
+	}
+	return found
+}
+
+// bceTerm: the indexed/sliced operand and its bounds as terms (parameters of new single-use helpers looked through).
+func (c *Ctx) bceTerm(in ssa.Instruction) string {
+	opt := func(v ssa.Value) string {
+		if v == nil {
+			return ""
+		}
+		return c.Term(v)
+	}
+	switch x := in.(type) {
+	case *ssa.Slice:
+		s := c.Term(x.X) + "[" + opt(x.Low) + ":" + opt(x.High)
+		if x.Max != nil {
+			s += ":" + opt(x.Max)
+		}
+		return s + "]"
+	case *ssa.IndexAddr:
+		return c.Term(x.X) + "[" + c.Term(x.Index) + "]"
+	case *ssa.Index:
+		return c.Term(x.X) + "[" + c.Term(x.Index) + "]"
+	case *ssa.Lookup:
+		return c.Term(x.X) + "[" + c.Term(x.Index) + "]"
+	}
+	return ""
 }
